@@ -733,7 +733,9 @@ func TestC02_GenuineVectors(t *testing.T) {
 		pool.add(b.Header)
 		srv.addHeaderContent(b.Hash, b.HeaderContent)
 	}
-	pool.summaries = func(uint64) (capella.HistoricalSummaries, error) { return capella.HistoricalSummaries(g.summaries), nil }
+	pool.summaries = func(uint64) (capella.HistoricalSummaries, error) {
+		return capella.HistoricalSummaries(g.summaries), nil
+	}
 	known := func(hash []byte) *types.Header {
 		h, _ := pool.lookup(hash)
 		return h
